@@ -552,6 +552,18 @@ func (e *SpecEnv) call(n *SCall) Val {
 	case "key3":
 		a, b, c := e.evalInt(n.Args[0]), e.evalInt(n.Args[1]), e.evalInt(n.Args[2])
 		return scInt(app("key!3", a, b, c))
+	case "readerin", "readerend":
+		// the byte sequence the reader r delivers: readerin(r)[0 .. readerend(r))
+		o, ok := e.eval(n.Args[0]).(Obj)
+		if !ok || o.F["id"] == nil {
+			e.fail("%s: reader object expected", n.Fn)
+		}
+		e.c().declareFun("rd!in", []string{SInt}, arrSort(SInt, SInt))
+		e.c().declareFun("rd!end", []string{SInt}, SInt)
+		if n.Fn == "readerin" {
+			return Sc{app("rd!in", o.F["id"].(Sc).T), arrSort(SInt, SInt)}
+		}
+		return scInt(app("rd!end", o.F["id"].(Sc).T))
 	case "readerfault":
 		// whether the reader r fails with a non-EOF error at the end of the bytes it delivers
 		o, ok := e.eval(n.Args[0]).(Obj)
